@@ -1,6 +1,7 @@
 package main
 
 import (
+	"syscall"
 	"bytes"
 	"context"
 	"fmt"
@@ -29,6 +30,21 @@ func mirrorExec(c *Ctx, op string) {
 	os.MkdirAll(tgt, 0755)
 	os.MkdirAll(master, 0755)
 	os.Setenv("RIO_CACHE", filepath.Join(base, "cache"))
+	// a private $TMPDIR: whatever scan / mirror / unpack spool locally must be gone when they return (C20)
+	tmpDir := filepath.Join(base, "tmp")
+	os.MkdirAll(tmpDir, 0755)
+	oldTmp := os.Getenv("TMPDIR")
+	os.Setenv("TMPDIR", tmpDir)
+	defer os.Setenv("TMPDIR", oldTmp)
+	tgtFull := strings.HasSuffix(tgtKind, "!") // the target sits on a tiny tmpfs: the copy runs out of space
+	tgtKind = strings.TrimSuffix(tgtKind, "!")
+	if tgtFull {
+		if e := syscall.Mount("tmpfs", tgt, "tmpfs", 0, "size=16k"); e != nil {
+			tgtFull = false
+		} else {
+			defer syscall.Unmount(tgt, syscall.MNT_DETACH)
+		}
+	}
 	ctx := context.Background()
 	pf := api.MustParseFilesetPackFilter(losslessPackStr)
 	uf := api.MustParseFilesetUnpackFilter(losslessUnpackStr)
@@ -81,6 +97,13 @@ func mirrorExec(c *Ctx, op string) {
 		case "mislabelled":
 			os.WriteFile(p, other, 0644)
 			pickToks = append(pickToks, scheme+":holding")
+		case "dirware":
+			// the address holds a directory: it opens, and the first read fails (a read error in mid-stream)
+			os.MkdirAll(p, 0755)
+			pickToks = append(pickToks, scheme+":holding")
+		}
+		if cd == "dirware" && firstHolder == "" {
+			firstHolder = cd
 		}
 		if cd == "good" || cd == "corrupt" || cd == "mislabelled" {
 			srcFiles = append(srcFiles, p)
@@ -120,7 +143,12 @@ func mirrorExec(c *Ctx, op string) {
 	// ---- C13 oracle
 	switch firstHolder {
 	case "good":
-		if res != "ok" {
+		if res != "ok" && tgtFull {
+			c.H("res:target-full")
+			if ferr == nil {
+				c.PropFail("mirror-target-polluted", "a mirror that ran out of space left an object at the target's final address", op)
+			}
+		} else if res != "ok" {
 			c.PropFail("mirror-failed", "mirror from a list whose first holder has a good copy failed: "+res, op)
 		}
 	default:
@@ -183,6 +211,9 @@ func mirrorExec(c *Ctx, op string) {
 			c.PropFail("mirror-not-identical", "the bytes at the target are not a prefix of the source ware", op)
 		}
 	}
+	if ents, e := os.ReadDir(tmpDir); e == nil && len(ents) > 0 {
+		c.PropFail("scan-creates-files", fmt.Sprintf("mirror / unpack of a %s ware left %d file(s) in $TMPDIR, e.g. %s", fmtName, len(ents), ents[0].Name()), op)
+	}
 	c.EmitR(op, "skip", "skip")
 	c.Distinct(op)
 }
@@ -205,7 +236,7 @@ func mirrorEngine(c *Ctx) {
 	if c.Tier == "thorough" {
 		n = 200
 	}
-	conds := []string{"missingdir", "lacking", "good", "good", "corrupt", "mislabelled"}
+	conds := []string{"missingdir", "lacking", "good", "good", "corrupt", "mislabelled", "dirware"}
 	for k := 0; k < n; k++ {
 		fmtName := []string{"tar", "tar", "zip"}[k%3]
 		fsx := c.GenFileset(GenOpts{MaxEntries: 5, Kinds: "ffdL", MaxContent: 400})
@@ -229,6 +260,10 @@ func mirrorEngine(c *Ctx) {
 		for i := 0; i < l; i++ {
 			cs = append(cs, conds[c.Intn(len(conds))])
 		}
-		mirrorExec(c, fmt.Sprintf("mirror %s %s %s %s", fmtName, []string{"ca", "file"}[c.Intn(2)], strings.Join(cs, ","), filesetTok(fsx)))
+		tk := []string{"ca", "file"}[c.Intn(2)]
+		if c.Chance(1, 4) {
+			tk += "!"
+		}
+		mirrorExec(c, fmt.Sprintf("mirror %s %s %s %s", fmtName, tk, strings.Join(cs, ","), filesetTok(fsx)))
 	}
 }
